@@ -8,7 +8,7 @@ drv_server ops (not verified; exercised on every line):
 
 tokens:  c<k>:<g|b|s> connect (good / bad / silent credentials) · p<k> call · l<k> call that lends an object ·
 o<k>:<n> use the object of the n-th lend (0-based, whole case) on connection k · g<k> graceful close ·
-a<k> abrupt close · X server close · i<k>:<letters> hostile frames given as items (h handled, b bad,
+a<k> abrupt close · X server close · i<k>:<letters> hostile frames given as items (h handled, e empty, b bad,
 t incomplete) · r<k>:<hex>[:<inhex>=<outhex|E>,..] hostile bytes (zlib results of the compressed frames supplied).
 
 Output: one segment per token joined by " ; ":
@@ -51,6 +51,7 @@ def parseItems : List Char → Option (List Item)
   | [] => some []
   | 'h' :: cs => (parseItems cs).map (Item.handled :: ·)
   | 'b' :: cs => (parseItems cs).map (Item.bad :: ·)
+  | 'e' :: cs => (parseItems cs).map (Item.empty :: ·)
   | 't' :: cs => (parseItems cs).map (Item.part :: ·)
   | _ => none
 
@@ -155,7 +156,7 @@ def runToks (dbg : Bool) : List Tok → St → List (Option Nat) → List String
       | _ => fin s "skip" lends
 
 def showItem : Item → String
-  | .req _ _ => "q" | .handled => "h" | .bad => "b" | .part => "t" | .bye => "y" | .fin => "f"
+  | .req _ _ => "q" | .handled => "h" | .empty => "e" | .bad => "b" | .part => "t" | .bye => "y" | .fin => "f"
 
 def serverOp : List String → String
   | "run" :: kind :: auth :: nb :: toks =>
